@@ -76,7 +76,7 @@ def cases(tier, rng, ctl=True):
         for wrap in ["{%s|1£}", "2({%s|1£})", "λ{%s|1£};†", "3({%s|}1)", "1{:|{%s|0}_‹}"]:
             out.append((wrap % cond, "", rng.choice(machine.INPUT_SETS)))
     out += families(tier, rng)
-    return list(dict.fromkeys((p, f, tuple(map(repr, i))) for p, f, i in out)), out
+    return list(dict.fromkeys((c[0], c[1], tuple(map(repr, c[2]))) for c in out)), out
 
 
 SLOTS = ["□", "1[□]", "0[1|□]", "2(□)", "2(i|□)", "0{:3<|›□}_", "0{:n+3<|›□}_", "1{n 2<|□ 5}_", "6λ□;†_", "3 4λ2|□;†_",
@@ -120,6 +120,16 @@ def families(tier, rng):
             for x in a2:
                 for y in a2:
                     out.append(("8 " + x + y + ch, "W", inp[1]))
+    # D  denotation twins: the same program with its list literal written as an equivalent lazily produced range;
+    #    bodies of lazily evaluated lambdas that read or change interpreter state, or print
+    srcs = [("⟨1|2⟩", "2ɾ"), ("⟨1|2|3⟩", "3ɾ"), ("⟨0|1⟩", "2ʁ"), ("⟨0|1|2⟩", "3ʁ"), ("⟨1⟩", "1ɾ"), ("⟨4|5⟩", "⟨4|5⟩0+")]
+    shapes = ["3→x □ƛ←x+; 5→x", "□ƛ…; 0,", "1£ □ƛ¥+; 9£", "□λ¥+;M 7£W", "□'…2<; 0,", "□ƛ⅛; ¾", "□ƛ,; 7,", "2£ □'¥<; 0£", "□ƛn£¥; 3£",
+              "□ƛ←x; 4→x", "□v… 0,", "1→x □ƛ←x›→x ←x; ←x", "□ƛ…;h 0,", "□ƛ…;L 0,", "□ƛ…;: 0,", "□ƛ…;_ 0,", "3(□ƛn…;)", "□ƛ…;∑ 0,",
+              "□ƛ!;", "9 □ƛ¼;⅛", "□λ…;F 0,", "□µ…; 0,", "□ɖ… 0,", "□ƛ…;Ṙ 0,", "□ƛ…;ƛ…; 0,"]
+    for a, b in srcs:
+        for sh in shapes:
+            for fl in ("", "W", "s", "j") if tier == "thorough" else ("", "W"):
+                out.append((sh.replace("□", a), fl, inp[0], False, {"twin": sh.replace("□", b)}))
     for st in MOD_STACKS:
         for o in MOD_OPERANDS:
             for m in gen.MONADIC_MODS:
@@ -162,7 +172,7 @@ def run(pid, tier, t0, which, seed_extra, ctl=True):
     verd = v if which == "V" else w
     tally = {}
     evaluated = set()
-    for (p, fl, inp), x, o in zip(cs, verd, obs):
+    for (p, fl, inp, *_), x, o in zip(cs, verd, obs):
         x = x or "skip"
         key = ":".join(x.split(":")[:2]) if x.startswith("skip") else x
         tally[key] = tally.get(key, 0) + 1
@@ -183,7 +193,7 @@ def run(pid, tier, t0, which, seed_extra, ctl=True):
             "states": mc["distinct"], "transitions": mc["generated"],
             "traces_validated_against_impl": nonskip,
             "samples": [{"program": p, "flags": fl, "inputs": inp, "verdict": x}
-                        for (p, fl, inp), x in list(zip(cs, verd))[:: max(1, len(cs) // 14)][:14]],
+                        for (p, fl, inp, *_), x in list(zip(cs, verd))[:: max(1, len(cs) // 14)][:14]],
             "evaluations": len(cs), "distinct_nontrivial": len(evaluated),
             "rule": "every program of <= 3 (quick) / 4 (thorough, 25% sample at length 4) symbols over "
                     "'12+:_,n?[|](){}λ;ƛ†XxW' on the input lists [], [3], [2,[1,2]]; structured random programs "
